@@ -57,7 +57,8 @@ def scenarios(run):
     RX = lambda *fs: ('Receive', [(f, None, {}) for f in fs])
     cfg = t2.default_cfg(True)
     z = list(t2.zoo(True))
-    late = [('Headers', 13, False, None, ('Decoded', t2.RESP)), ('Data', 13, 10, 10, False), ('Data', 13, 10, 14, True), ('WindowUpdate', 13, 5),
+    late = [('Headers', 13, True, None, ('Decoded', t2.INFO)),      # 1xx with END_STREAM on a reset stream (fix 415bf1d)
+            ('Headers', 13, False, None, ('Decoded', t2.RESP)), ('Data', 13, 10, 10, False), ('Data', 13, 10, 14, True), ('WindowUpdate', 13, 5),
             ('RstStream', 13, 8), ('PushPromise', 13, 20, ('Decoded', t2.REQ)), ('Headers', 13, True, None, ('Decoded', t2.RESP))]
     for cleanup in (False, True):
         for f in late:
